@@ -7,7 +7,8 @@ use opening_hours_syntax::rules::RuleKind;
 
 use crate::choice::Choices;
 use crate::engine::Property;
-use crate::runner::{guard, Case, SubCheck};
+use crate::runner::{guard, Case, SubCheck, SubOutcome, Tier};
+use crate::util::{par_enumerate, Acc};
 
 /// Equation of time in minutes for day-of-year `n` (standard approximation, error < 1 min).
 fn equation_of_time(n: f64) -> f64 {
@@ -101,6 +102,10 @@ fn ordering(ch: &mut Choices, case: &mut Case) -> Result<(), String> {
         return Ok(());
     }
     let d = gen_date(ch);
+    ordering_at(lat, lon, d, case)
+}
+
+fn ordering_at(lat: f64, lon: f64, d: NaiveDate, case: &mut Case) -> Result<(), String> {
     let coords = Coordinates::new(lat, lon).ok_or_else(|| format!("valid coordinates ({lat}, {lon}) rejected"))?;
     let ctx = guard(|| Context::from_coords(coords)).map_err(|p| format!("Context::from_coords({lat}, {lon}) panicked: {p}"))?;
     let tz = *ctx.locale.get_timezone();
@@ -138,8 +143,15 @@ fn ordering(ch: &mut Choices, case: &mut Case) -> Result<(), String> {
     let day_end = tz.from_utc_datetime(&(noon_utc + Duration::hours(12)));
     let jump = (i64::from(chrono::Offset::fix(day_end.offset()).local_minus_utc()) - i64::from(chrono::Offset::fix(day_start.offset()).local_minus_utc())).abs() / 60;
     if jump != 0 {
+        // local times of day are then not comparable: compare the instants they denote
         case.label("offset_change_during_the_solar_day");
-        case.exclude("offset-change-during-the-solar-day");
+        match solar_day_instants(tz, lat, lon, d, t, noon_utc)? {
+            true => {
+                case.units = 1;
+                case.nontrivial = true;
+            }
+            false => case.exclude("offset-change-day:event-instant-not-unique"),
+        }
         return Ok(());
     }
     case.units = 1;
@@ -182,6 +194,128 @@ fn ordering(ch: &mut Choices, case: &mut Case) -> Result<(), String> {
         case.label("zone_far_from_solar_time");
     }
     Ok(())
+}
+
+/// The physical checks on a day during which the zone's offset changes: every local event time
+/// is mapped back to the instant it denotes (the unique instant with that wall-clock time on the
+/// right side of solar noon and within 14 h of it), and the instants must be ordered around solar
+/// noon like on any other day. `Ok(false)` = some event has no unique instant (skipped or repeated
+/// wall-clock time): not decided.
+fn solar_day_instants(tz: chrono_tz::Tz, lat: f64, lon: f64, d: NaiveDate, t: [i64; 4], noon_utc: NaiveDateTime) -> Result<bool, String> {
+    use crate::props::c09::offset_at;
+    let mut offsets: Vec<i64> = Vec::new();
+    for k in -30..=30 {
+        let o = offset_at(tz, noon_utc + Duration::minutes(30 * k));
+        if !offsets.contains(&o) {
+            offsets.push(o);
+        }
+    }
+    let mut inst = [noon_utc; 4];
+    for (i, m) in t.iter().enumerate() {
+        let mut found: Vec<NaiveDateTime> = Vec::new();
+        for day in [d.pred_opt().unwrap(), d, d.succ_opt().unwrap()] {
+            let local = day.and_hms_opt(0, 0, 0).unwrap() + Duration::minutes(*m);
+            for o in &offsets {
+                let u = local - Duration::seconds(*o);
+                let right_side = if i < 2 { u < noon_utc } else { u > noon_utc };
+                if offset_at(tz, u) == *o && right_side && (u - noon_utc).num_minutes().abs() < 14 * 60 && !found.contains(&u) {
+                    found.push(u);
+                }
+            }
+        }
+        if found.len() != 1 {
+            return Ok(false);
+        }
+        inst[i] = found[0];
+    }
+    let rel = |u: NaiveDateTime| (u - noon_utc).num_minutes();
+    let (dawn, sunrise, sunset, dusk) = (rel(inst[0]), rel(inst[1]), rel(inst[2]), rel(inst[3]));
+    let describe = format!("minutes relative to solar noon {noon_utc} UTC: dawn {dawn} sunrise {sunrise} sunset {sunset} dusk {dusk} (local times of day {t:?})");
+    if !(dawn < sunrise && sunrise < -30 && 30 < sunset && sunset < dusk) {
+        return Err(format!("({lat:.4}, {lon:.4}) [{tz}] on {d} (offset change during the day): the instants of the events are not ordered dawn < sunrise < solar noon < sunset < dusk with noon at least 30 min inside: {describe}"));
+    }
+    if ((sunrise + sunset) as f64 / 2.0).abs() > 10.0 {
+        return Err(format!("({lat:.4}, {lon:.4}) [{tz}] on {d} (offset change during the day): the middle of sunrise..sunset is {:.1} min away from solar noon: {describe}", ((sunrise + sunset) as f64 / 2.0).abs()));
+    }
+    Ok(true)
+}
+
+/// Representative places of a zone: points of a 1-degree grid (|lat| <= 60) whose inferred zone
+/// it is, at most three per zone (first, middle and last in scan order).
+fn zone_places() -> &'static std::collections::BTreeMap<&'static str, Vec<(f64, f64)>> {
+    static PLACES: std::sync::OnceLock<std::collections::BTreeMap<&'static str, Vec<(f64, f64)>>> = std::sync::OnceLock::new();
+    PLACES.get_or_init(|| {
+        let mut all: std::collections::BTreeMap<&'static str, Vec<(f64, f64)>> = Default::default();
+        for lat10 in (-595..=595).step_by(10) {
+            for lon10 in (-1795..=1795).step_by(10) {
+                let (lat, lon) = (f64::from(lat10) / 10.0, f64::from(lon10) / 10.0);
+                let tz = *TzLocation::from_coords(Coordinates::new(lat, lon).unwrap()).get_timezone();
+                all.entry(tz.name()).or_default().push((lat, lon));
+            }
+        }
+        all.into_iter()
+            .map(|(k, v)| {
+                let mut pick = vec![v[0], v[v.len() / 2], v[v.len() - 1]];
+                pick.dedup();
+                (k, pick)
+            })
+            .collect()
+    })
+}
+
+/// Exhaustive over the tz database: every offset transition 1900..2045 of every zone that owns
+/// a grid point, on the local dates around it.
+fn check_zone_transition_days(index: u64, acc: &mut Acc) {
+    let tz = chrono_tz::TZ_VARIANTS[index as usize];
+    let Some(places) = zone_places().get(tz.name()) else {
+        acc.label("zone_without_grid_point");
+        return;
+    };
+    for t in crate::props::c09::all_transitions(tz) {
+        let local = t + Duration::seconds(crate::props::c09::offset_at(tz, t));
+        for (lat, lon) in places {
+            for d in [local.date().pred_opt().unwrap(), local.date()] {
+                if d.year() < 1900 {
+                    continue;
+                }
+                let text = format!("{lat} {lon} {d}");
+                let mut case = Case::default();
+                match ordering_at(*lat, *lon, d, &mut case) {
+                    Ok(()) => {
+                        let decided_change_day = case.labels.contains(&"offset_change_during_the_solar_day") && case.excluded.is_none();
+                        acc.case(decided_change_day);
+                        if decided_change_day {
+                            acc.label("offset_change_during_the_solar_day");
+                        }
+                        if decided_change_day && acc.stats.samples.len() < 4 {
+                            acc.sample(|| case.key.clone());
+                        }
+                        if let Some(why) = case.excluded {
+                            acc.label(if why.starts_with("offset-change-day") { "undecided_event_instant" } else { "other_exclusion" });
+                        }
+                    }
+                    Err(m) => return acc.fail("ordering", text, m),
+                }
+            }
+        }
+    }
+}
+
+fn extra(_tier: Tier, _seed: u64) -> Vec<SubOutcome> {
+    vec![par_enumerate(
+        "transition_days",
+        "exhaustive over the tz database: for each of the 596 zones that owns a point of the 1-degree grid (|lat| <= 60; up to 3 points per zone, zone inferred by the library), every offset transition 1900..2045 x the local date of the transition and the day before: the checks of `ordering`, made on the instants the local event times denote when the offset changes during the solar day; non-trivial = the offset changes during the solar day and every event maps to a unique instant",
+        chrono_tz::TZ_VARIANTS.len() as u64,
+        check_zone_transition_days,
+    )]
+}
+
+/// Replay entry of `ordering`: "lat lon yyyy-mm-dd".
+fn ordering_text(text: &str, case: &mut Case) -> Result<(), String> {
+    let parts: Vec<&str> = text.split_whitespace().collect();
+    let [lat, lon, date] = parts.as_slice() else { return Err("expected `lat lon yyyy-mm-dd`".into()) };
+    let d: NaiveDate = date.parse().map_err(|_| "bad date")?;
+    ordering_at(lat.parse().map_err(|_| "bad latitude")?, lon.parse().map_err(|_| "bad longitude")?, d, case)
 }
 
 fn next_up(x: f64) -> f64 {
@@ -267,9 +401,9 @@ pub fn property() -> Property {
             },
             SubCheck {
                 name: "ordering",
-                rule: "coordinates with |lat| <= 60 (uniform on the sphere band / 23 cities / longitudes at the antimeridian and zone borders) x date 1900..2100, zone inferred by Context::from_coords: the four event times are read from the schedules of `event-24:00`, re-anchored into solar noon +- 12 h and must satisfy dawn < sunrise < solar noon < sunset < dusk as instants, solar noon (computed by the harness from longitude and the equation of time, converted with chrono-tz) at least 30 min inside sunrise..sunset and within 10 min of its middle; `sunrise-sunset` open at solar noon and closed 12 h later; days on which the zone offset changes are skipped; non-trivial = |lat| > 40 or zone offset more than 90 min away from solar time",
+                rule: "coordinates with |lat| <= 60 (uniform on the sphere band / 23 cities / longitudes at the antimeridian and zone borders) x date 1900..2100, zone inferred by Context::from_coords: the four event times are read from the schedules of `event-24:00`, re-anchored into solar noon +- 12 h and must satisfy dawn < sunrise < solar noon < sunset < dusk as instants, solar noon (computed by the harness from longitude and the equation of time, converted with chrono-tz) at least 30 min inside sunrise..sunset and within 10 min of its middle; `sunrise-sunset` open at solar noon and closed 12 h later; on days during which the zone offset changes the same checks are made on the instants the local event times denote (unique instant with that wall-clock time on the right side of solar noon, else undecided); non-trivial = |lat| > 40 or zone offset more than 90 min away from solar time, or an offset-change day that was decided",
                 f: ordering,
-                text_f: None,
+                text_f: Some(ordering_text),
                 cases_quick: 40_000,
                 cases_thorough: 300_000,
                 max_choices: 24,
@@ -284,7 +418,7 @@ pub fn property() -> Property {
                 max_choices: 40,
             },
         ],
-        extra: None,
+        extra: Some(extra),
         assumptions: vec![
             "solar noon estimate: 12:00 UTC - 4 min/degree of longitude - equation of time (error < 1.5 min); tolerances 30 min and 10 min (largest deviation observed in the design phase: 2.5 min)",
             "chrono-tz offsets are trusted for converting the harness' solar noon to wall-clock time",
